@@ -20,6 +20,7 @@ import (
 	"sync"
 	"sync/atomic"
 
+	"github.com/hashicorp/consul/agent/consul"
 	rh "github.com/hashicorp/consul/verifharness/internal/replh"
 )
 
@@ -98,12 +99,17 @@ func runAll(cases []rh.Case, rec *recorder) {
 			wg.Add(1)
 			go func() {
 				defer wg.Done()
+				node, err := consul.VerifNewReplNode() // one real single-node raft per worker, reused for its rounds
+				if err != nil {
+					fatal("raft node: %v", err)
+				}
+				defer node.Close()
 				for {
 					i := int(atomic.AddInt64(&next, 1))
 					if i >= hi {
 						return
 					}
-					evs[i-lo] = rh.Run(cases[i])
+					evs[i-lo] = rh.Run(node, cases[i])
 				}
 			}()
 		}
@@ -197,7 +203,23 @@ func randomCase(r *rand.Rand, typ string, max int) rh.Case {
 				local = put(put(local, rh.Obj{ID: a, MI: 1, C: 7, H: 7}), rh.Obj{ID: b, MI: 1, C: 1, H: 1})
 				remote = put(put(remote, rh.Obj{ID: a, MI: mi, C: 1, H: 1}), rh.Obj{ID: b, MI: mi, C: other, H: other})
 			}
-		} else if r.Intn(2) == 0 { // the name moves from b to a
+		} else if v := r.Intn(4); v >= 2 { // the holder of the name is deleted and another object is created with it
+			del := func(l []rh.Obj, id int) []rh.Obj {
+				out := l[:0]
+				for _, o := range l {
+					if o.ID != id {
+						out = append(out, o)
+					}
+				}
+				return out
+			}
+			holder, taker := a, b
+			if v == 3 {
+				holder, taker = b, a
+			}
+			local = put(del(local, taker), rh.Obj{ID: holder, MI: 1, C: 7, H: 7})
+			remote = put(del(remote, holder), rh.Obj{ID: taker, MI: uint64(1 + r.Intn(9)), C: 7, H: 7})
+		} else if v == 0 { // the name moves from b to a
 			local = put(put(local, rh.Obj{ID: a, MI: 1, C: other, H: other}), rh.Obj{ID: b, MI: 1, C: 7, H: 7})
 			remote = put(put(remote, rh.Obj{ID: a, MI: mi, C: 7, H: 7}), rh.Obj{ID: b, MI: mi, C: other, H: other})
 		} else { // the name moves from a to b
@@ -249,6 +271,7 @@ func randomCase(r *rand.Rand, typ string, max int) rh.Case {
 	r.Shuffle(len(remote), func(i, j int) { remote[i], remote[j] = remote[j], remote[i] })
 	r.Shuffle(len(c.Sec), func(i, j int) { c.Sec[i], c.Sec[j] = c.Sec[j], c.Sec[i] })
 	c.InL, c.InR = local, remote
+	c.Seed = r.Int63()
 	if r.Intn(2) == 0 {
 		c.Order = "given"
 	}
